@@ -2,7 +2,7 @@
 From Coq Require Import NArith List String Ascii Bool.
 From Coq Require Import Strings.Byte.
 From PDL Require Import Base.Bits Base.Outcome Lang.Ast Lang.Sexp Lang.AstSexp
-     Analyzer.Schema Analyzer.Desugar Rust.Enum Sem.RefEncode Sem.RefDecode Rust.Encode Rust.Decode Rust.Inherit.
+     Analyzer.Schema Analyzer.Desugar Analyzer.Passes Analyzer.Analyze Rust.Enum Sem.RefEncode Sem.RefDecode Rust.Encode Rust.Decode Rust.Inherit.
 Import ListNotations.
 Open Scope string_scope.
 Open Scope N_scope.
@@ -25,9 +25,12 @@ Definition load_file (s : string) : option loaded :=
   | Some sx =>
       match file_of_sexp sx with
       | Some raw =>
+          (* loading succeeds whenever the text parses; a file that cannot be
+             normalized keeps its raw form and has no schema (the codec ops then
+             answer [noschema], the [analyze] op only looks at [ld_raw]) *)
           match normalize raw with
           | Some fl => Some (mkLoaded raw fl (mk_schema fl))
-          | None => None
+          | None => Some (mkLoaded raw raw None)
           end
       | None => None
       end
@@ -196,11 +199,39 @@ Definition schema_dump (fl : file) (sch : schema) : string :=
            end
        end) (f_decls fl)).
 
+(** The [analyze] op: the model of [analyzer::analyze] on the RAW file.
+    ok <TAB> analyzed file as s-expression <TAB> schema:agree|schema:differ
+       (whether Schema.v's [mk_schema] on the analyzed file equals the schema computed
+        by the site-aware [schema_new])
+       <TAB> id=decl_size/parent_size/payload_size;... (declarations in analyzed order)
+       <TAB> field sizes: s,s,..;s,s,.. (one group per declaration, same order);
+    rejected <TAB> E11,E11 ;  panic <TAB> <line>:<function>:<expression> *)
+Definition schema_str (sch : schema) : string :=
+  concat_sep ";" (map (fun p => fst p ++ "=" ++ size_str (ds_decl (snd p)) ++ "/"
+                                  ++ size_str (ds_parent (snd p)) ++ "/"
+                                  ++ size_str (ds_payload (snd p))) sch).
+
+Definition run_analyze (id : string) (raw : file) : string :=
+  match analyze_with_schema raw with
+  | Accepted (f, sch) =>
+      let agree := match mk_schema f with
+                   | Some sch' => String.eqb (schema_str sch') (schema_str (as_decls sch))
+                   | None => false
+                   end in
+      reply id "ok" (sexp_of_file f ++ tab ++ (if agree then "schema:agree" else "schema:differ")
+                       ++ tab ++ schema_str (rev (as_decls sch))
+                       ++ tab ++ concat_sep ";" (map (fun sizes => concat_sep "," (map size_str sizes))
+                                                     (as_fields sch)))
+  | Rejected ds => reply id "rejected" (codes_str ds)
+  | Panicked s => reply id "panic" s
+  end.
+
 Definition run_case (ld : loaded) (line : string) : string :=
   match parse_sexp line with
   | Some (SList (Atom id :: Atom op :: Atom fuel :: Atom ty :: args)) =>
       let fl := ld_file ld in
       let fu := nat_of_atom fuel in
+      if String.eqb op "analyze" then run_analyze id (ld_raw ld) else
       match ld_schema ld with
       | None => reply id "noschema" ""
       | Some sch =>
@@ -389,3 +420,9 @@ Definition run_case (ld : loaded) (line : string) : string :=
       end
   | _ => "?" ++ tab ++ "bad" ++ tab ++ "line"
   end.
+
+(* ---- begin parser model entry point (Front/ParseOracle.v) ---- *)
+From PDL Require Front.ParseOracle.
+(** [(parse ID "text")] -> [ID<TAB>status<TAB>rest]: the model of parser::parse_inline. *)
+Definition parse_line (line : string) : string := PDL.Front.ParseOracle.parse_request line.
+(* ---- end parser model entry point ---- *)
